@@ -1,8 +1,8 @@
 /-!
 # Process-wide memo caches and render histories  (C17)
 
-`functools.lru_cache(maxsize=cap)` as a recency list keyed **by Python equality**: a call looks its argument
-tuple up with `==` (after `hash`, which agrees with `==`), a hit returns the value that was computed for the
+`functools.lru_cache(maxsize=cap)` as a recency list keyed **by Python equality**: a call looks its key (built
+from the argument tuple by `functools._make_key`, see `lruKeyEq`) up with `==` (after `hash`, which agrees with `==`), a hit returns the value that was computed for the
 *stored* key — the first caller's — and refreshes the entry; a miss computes, stores and evicts the least recently
 used entry beyond `cap`.
 
@@ -90,6 +90,21 @@ def keyEq : List PyKey → List PyKey → Bool
   | a :: as, b :: bs => pyEq a b && keyEq as bs
   | _, _ => false
 
+/-- `functools._make_key` fast path: a call with exactly one positional argument whose type is exactly `int` or
+    `str` is keyed by the bare value; every other call by a `_HashedSeq` (a list) of its arguments.  A bare value
+    never equals a list, so `f(1)` and `f(True)` / `f(1.0)` — and `f("x")` and `f(Markup("x"))` — are different
+    entries, while `f(1, "x")` and `f(True, Markup("x"))` are the same one. -/
+def isFast : PyKey → Bool
+  | .int _ => true
+  | .str _ => true
+  | _ => false
+
+/-- equality of two `lru_cache` keys built from argument tuples -/
+def lruKeyEq (a b : List PyKey) : Bool :=
+  match a, b with
+  | [x], [y] => if isFast x || isFast y then isFast x && isFast y && pyEq x y else pyEq x y
+  | _, _ => keyEq a b
+
 /-! ## The removed `date` memo (kept as the witness of why an equality-keyed memo is unsound for it) -/
 
 /-- what `date(dat, fmt)` can depend on and `==` cannot see: the zone offset of `dat` (`%z`, `%H`) and whether
@@ -115,8 +130,8 @@ structure Req (P : Type) where
     lexer, the parser and the request -/
 def renderP {Lx Ps P O : Type} (mkLexer : List PyKey → Lx) (mkParser : List PyKey → Ps) (out : Lx → Ps → Req P → O)
     (p : Proc Lx Ps) (r : Req P) : O × Proc Lx Ps :=
-  let (lx, lc) := call keyEq mkLexer 128 p.lexers r.delims
-  let (ps, pc) := call keyEq mkParser 128 p.parsers [.obj r.env]
+  let (lx, lc) := call lruKeyEq mkLexer 128 p.lexers r.delims
+  let (ps, pc) := call lruKeyEq mkParser 128 p.parsers [.obj r.env]
   (out lx ps r, { lexers := lc, parsers := pc })
 
 def runP {Lx Ps P O : Type} (mkLexer : List PyKey → Lx) (mkParser : List PyKey → Ps) (out : Lx → Ps → Req P → O) :
